@@ -198,6 +198,24 @@ def pickLoaded (cat : Category) (w : Where) (core : List Str) (sect : List (Str 
     | none => pick .loader w (nameTable core sect) name
   | c => if allLoad mods sect then pick c w (nameTable core sect) name else .traceback3
 
+/-! ### the sub-command (`DoitMain.get_cmds` / `run`) -/
+
+def runName : Str := ['r', 'u', 'n']
+
+/-- `DoitMain.run`: the first word (loader options and `name=value` words already taken out) names the sub-command
+    when it is a key of the command table; otherwise the command is `run` and every word stays an argument -/
+def subCommand (table : List (Str × Cls)) : List Str → Str × List Str
+  | [] => (runName, [])
+  | a :: rest => if (alookup a table).isSome then (a, rest) else (runName, a :: rest)
+
+/-- the class of the command that is executed: core commands updated with the `COMMAND` plugins; only the entry of
+    the command that is used is imported (`sub_cmds.get_plugin(cmd_name)`, inside the `try`) -/
+def commandPick (core : List Str) (sect : List (Str × Str)) (mods : List (Str × List Str)) (args : List Str) : Pick :=
+  match alookup (subCommand (nameTable core sect) args).1 (nameTable core sect) with
+  | some (.plugin loc) => if (loadPlugin mods loc).toBool then .cls (.plugin loc) else .traceback3
+  | some c => .cls c
+  | none => .traceback3        -- `run` is not in the table: KeyError (never with doit's core commands)
+
 /-! ## (c) the same text in a config file and on the command line -/
 
 /-- a text written as the value of option `o` in a config section (INI: always text) with nothing else given -/
